@@ -40,6 +40,9 @@ func propC05(ch core.Chooser, st *core.Stats) error {
 			return err
 		}
 		maxPrefill = 6 // keep the constructed shape mostly intact
+		if len(s.victims) > 0 {
+			maxPrefill = 2
+		}
 	}
 	if err := s.runOps(ch.Int("prefill", 0, maxPrefill), []int{8, delw, 0, 0, 0, 0, 0}); err != nil {
 		return err
